@@ -14,7 +14,7 @@ ASSUME = [
     'with the correct network password only GET routes and POST /config are exercised (/quit, /join, /part, /kill and /raft/ are never called with valid credentials); every refused private request uses a fresh api.HTTP object so that the wrong-password back-off stays at 1 ms; no time is measured',
     'id spellings other than the canonical 0x.. form that denote the same number may be accepted or refused with the correct secret (both are fine), but are never accepted with anything else',
 ]
-RULE = ('all cells of: {history} x {13 session states} x {10 denoting + 6 garbage id spellings} x {6 route shapes + 23 off-route method/path shapes} x {credential variants in X-Session-Auth}, '
+RULE = ('all cells of: {history: quick = none, post, config change, snapshot+restart; thorough = every sequence of <= 3 operations over post, config change, forced snapshot, restart} x {13 session states: fresh, logged in, deleted by DELETE / QUIT / admin kill / oper KILL (each also with a younger session speaking last), never existed, id 0, far-future id} x {10 denoting + 6 garbage id spellings} x {6 route shapes + 23 off-route method/path shapes} x {credential variants in X-Session-Auth}, '
         'followed by the accepted life cycle GET/POST/GET/DELETE with the correct secret and the once-correct secret afterwards; '
         '{private paths} x {GET, POST, DELETE, PUT} x {17 wrong basic-auth variants, correct}; {private paths below /robustirc/v1/} x 4 methods x 3 credentials through the public dispatcher. '
         'distinct_nontrivial = number of distinct (matrix part, route, session state/history, id spelling, credential, observed status, effect) classes observed by the run')
@@ -101,6 +101,27 @@ def _crash_violation(binary, msg):
             'unit': unit[-1][5:].split(' | ') if unit else [], 'log_tail': tail}
 
 
+def _progress_stats(binary, nshards):
+    """What the workers had done when one of them died, measured from their progress files."""
+    n, classes, sample = 0, set(), []
+    for i in range(nshards):
+        f = os.path.join(vlib.scratch_dir(), '%s.%s.%d.json.progress' % (os.path.basename(binary), TEST, i))
+        try:
+            lines = open(f, errors='replace').read().split('\n')
+        except Exception:
+            continue
+        for a, b in zip(lines, lines[1:]):
+            if a.startswith('REQ ') and b.startswith('DONE '):
+                n += 1
+                m = re.match(r'REQ (\S+) (\S+)\s+\[credential: ([^;\]]*)', a)
+                if m:
+                    path = re.sub(r'/robustirc/v1/[^/?]*', '/robustirc/v1/<id>', m.group(2).split('?')[0])
+                    classes.add((m.group(1), path, m.group(3), b[5:]))
+                    if len(sample) < 3:
+                        sample.append(a[4:] + ' -> ' + b[5:])
+    return n, len(classes), sample
+
+
 def run(tier):
     t0 = time.time()
     routes = parse_routes()
@@ -124,7 +145,9 @@ def run(tier):
         if v is None:
             print(msg)
             raise SystemExit(3)
-        cov = {'evaluations': 1, 'distinct_nontrivial': 0, 'rule': RULE, 'samples': [v['desc']], 'exhaustive': False,
+        n, classes, sample = _progress_stats(binary, nshards)
+        cov = {'evaluations': n + 1, 'distinct_nontrivial': classes, 'samples': [v['desc']] + sample, 'exhaustive': False,
+               'rule': 'run aborted because a worker process died inside a request handler; counts are the completed requests and the distinct (method, path shape, credential, status) classes in the progress files of all workers at that moment',
                'aborted': 'a worker process died inside a request handler'}
         vlib.finish('C11', tier, 'exploration', cov, [v], t0, assumptions=ASSUME)
         return
@@ -144,6 +167,11 @@ def run(tier):
             else:
                 bysig[v['sig']] = v
     viols = list(bysig.values())
+    died = [r for r in rs if r.get('in_flight') and r.get('_rc')]
+    if died:
+        viols.append({'sig': 'C11:handler crashed the process', 'prop': 'C11', 'count': len(died),
+                      'desc': 'the process exited (%s) while serving %s' % (died[0].get('_rc'), died[0]['in_flight']),
+                      'unit': ['private', 'h0', '', '/quit']})
     outcomes, status, parts, lost = {}, {}, {}, {}
     for r in rs:
         for src, dst in ((r.get('outcomes'), outcomes), (r.get('status'), status), (r.get('parts'), parts), (r.get('world_lost'), lost)):
@@ -154,7 +182,7 @@ def run(tier):
         for s in r.get('samples') or []:
             if len(samples) < 12 and s not in samples:
                 samples.append(s)
-    capped = any(r.get('capped') for r in rs)
+    capped = any(r.get('capped') for r in rs) or bool(died)
     cov = {
         'evaluations': sum(r.get('requests', 0) for r in rs),
         'distinct_nontrivial': len(outcomes),
@@ -173,12 +201,15 @@ def run(tier):
 
 def replay(path):
     b = _build(); sd = vlib.scratch_dir(); o = os.path.join(sd, 'c11r.json')
-    env = dict(os.environ); env.update({'VERIF_REPLAY': path, 'VERIF_OUT': o, 'TMPDIR': sd, 'VERIF_TIER': 'thorough'})
+    env = dict(os.environ); env.update({'VERIF_REPLAY': os.path.abspath(path), 'VERIF_OUT': o, 'TMPDIR': sd, 'VERIF_TIER': 'thorough'})
     p = subprocess.run([b, '-test.run', '^' + TEST + '$', '-test.timeout', '0'], env=env, cwd=sd)
     if not os.path.exists(o):
         print('the process died while replaying (handler crash)')
         print('VIOLATION property=C11 replay=%s' % path); return 1
-    r = json.load(open(o)); print(json.dumps(r.get('violations')))
+    r = json.load(open(o))
+    if r.get('harness_error'):
+        print('HARNESS-ERROR: ' + r['harness_error']); return 3
+    print(json.dumps(r.get('violations')))
     if r.get('violations'):
         print('VIOLATION property=C11 replay=%s' % path); return 1
     return 0
@@ -187,4 +218,4 @@ def replay(path):
 MANIFEST = dict(engine='api-matrix', level='exploration',
   technique='exhaustive request matrix (routes x methods x credentials x session states x id spellings) on the real HTTP dispatchers over an in-process raft node, with before/after state, log and body-leak oracles',
   text='Every combination of session state (fresh, logged in with messages waiting, deleted in four ways, never existed, id 0, not yet seen), id spelling (hex, decimal, other bases, overflow, slash, garbage, empty), route (POST message, GET messages with and without lastseen, DELETE, and all off-route method/path shapes) and credential (absent, empty, one character off, truncated, extended, upper case, other live session, deleted session, network password) is sent to the real public dispatcher; anything but the correct secret must get a non-2xx answer, add nothing to the raft log, leave the state dump and the output stream untouched and reveal neither message texts nor secrets. The correct secret must be accepted and effective, and refused once the session is deleted. Every private path (parsed from the switch in api.go at check time and compared with the harness table) is sent with four methods and seventeen wrong basic-auth variants: 401 with WWW-Authenticate, no effect, no leak; private paths below /robustirc/v1/ must not be served by the public dispatcher. A handler that takes the process down is detected through a per-request progress file.',
-  note='Single leader node only: the proxy-to-leader path of followers for unknown sessions is not exercised. TLS, the net/http mux and real sockets are outside the harness. Timing side channels (non-constant-time comparison of secrets) are not examined. quick runs the matrix from two histories (plain, snapshot+restart), thorough from seven.')
+  note='Single leader node only: the proxy-to-leader path of followers for unknown sessions is not exercised. TLS, the net/http mux and real sockets are outside the harness. Timing side channels (non-constant-time comparison of secrets) are not examined. quick runs the matrix from four histories (plain, one more post, config change, snapshot+restart), thorough from all 85 sequences of at most three history operations.')
